@@ -46,12 +46,12 @@ def expected_language(name):
 
 # ------------------------------------------------------------------ file contents
 
-def py_function(name, n):
-    return "def %s(a):\n%s" % (name, "".join("    a = a + %d\n" % i for i in range(n - 1)))
+def py_function(name, n, marked=False):
+    return "def %s(a):%s\n%s" % (name, "  # nocl" if marked else "", "".join("    a = a + %d\n" % i for i in range(n - 1)))
 
 
-def brace_function(head, n):
-    return "%s {\n%s}\n" % (head, "".join("  a = a + %d;\n" % i for i in range(n - 2)))
+def brace_function(head, n, marked=False):
+    return "%s {%s\n%s}\n" % (head, " // nocl" if marked else "", "".join("  a = a + %d;\n" % i for i in range(n - 2)))
 
 
 def source_for(ext, lengths, rnd=None):
@@ -59,16 +59,17 @@ def source_for(ext, lengths, rnd=None):
     parts = []
     for i, n in enumerate(lengths):
         n = max(n, 3)
+        mk = (i + n) % 4 == 1      # some functions carry the suppression marker: scan omits them, so must check
         if ext == ".py":
-            parts.append(py_function("f%d" % i, n))
+            parts.append(py_function("f%d" % i, n, mk))
         elif ext in (".js", ".ts"):
-            parts.append(brace_function("function f%d(a)" % i, n))
+            parts.append(brace_function("function f%d(a)" % i, n, mk))
         elif ext in (".c", ".cpp", ".h"):
-            parts.append(brace_function("int f%d(int a)" % i, n))
+            parts.append(brace_function("int f%d(int a)" % i, n, mk))
         elif ext == ".java":
-            parts.append("class K%d {\n%s}\n" % (i, brace_function("  int f%d(int a)" % i, n)))
+            parts.append("class K%d {\n%s}\n" % (i, brace_function("  int f%d(int a)" % i, n, mk)))
         elif ext == ".cs":
-            parts.append("class K%d {\n%s}\n" % (i, brace_function("  int f%d(int a)" % i, n)))
+            parts.append("class K%d {\n%s}\n" % (i, brace_function("  int f%d(int a)" % i, n, mk)))
         else:
             parts.append("text %d\n" % i)
     return "\n".join(parts).encode("utf-8")
